@@ -1,18 +1,21 @@
 ---------------------------- MODULE TraceReplace ----------------------------
 (***************************************************************************)
-(* Trace validation for Replace.tla: the recorded file-system mutations of *)
-(* every real compaction / out-of-order merge (classified by the harness   *)
-(* as WriteNew, LogCreate, LogWrite, RenameNew, DeleteOld, LogRemove) must *)
-(* be a behaviour of the specification; a removal of an input file after   *)
-(* the log is gone is the merge's tail (DeleteTail). The numbers of new,   *)
-(* old and tail files are taken from each recorded run (Reset line).       *)
+(* Trace validation for Replace.tla and ReplaceDS.tla: the recorded        *)
+(* file-system mutations of every real compaction / out-of-order merge /   *)
+(* down-sample (classified by the harness as CreateNew, WriteData,         *)
+(* SyncNew, LogCreate, LogWrite, LogSync, RenameNew, DeleteOld, MetaUpdate,*)
+(* LogRemove) must be a behaviour of the specification; a removal of an    *)
+(* input file after the log is gone is the merge's tail (DeleteTail). The  *)
+(* new files are followed by name (several measurements are written        *)
+(* concurrently by a down-sample); the numbers of old and tail files are   *)
+(* taken from each recorded run (Reset line).                              *)
 (***************************************************************************)
 EXTENDS Integers, Sequences, FiniteSets, TLC, Json
 
 Trace == ndJsonDeserialize("trace.ndjson")
 
-VARIABLES old, new, tail, clog, pc, l
-vars == <<old, new, tail, clog, pc, l>>
+VARIABLES old, new, tail, clog, pc, proto, l
+vars == <<old, new, tail, clog, pc, proto, l>>
 
 IsEvent(e) == l <= Len(Trace) /\ Trace[l].ev = e /\ l' = l + 1
 
@@ -21,38 +24,54 @@ Count(f, v) == Cardinality({x \in DOMAIN f : f[x] = v})
 TraceReset ==
   /\ IsEvent("Reset")
   /\ old' = [j \in 1..Trace[l].nold |-> "final"]
-  /\ new' = [i \in 1..Trace[l].nnew |-> "none"]
+  /\ new' = <<>>
   /\ tail' = [t \in 1..Trace[l].ntail |-> "final"]
+  /\ proto' = Trace[l].proto
   /\ clog' = "none" /\ pc' = "writing"
 
-\* the i-th event of a kind acts on the i-th file of that kind (files are interchangeable here)
+\* the i-th removal acts on the i-th old file (old files are interchangeable here)
 FirstWith(f, v) == CHOOSE x \in DOMAIN f : f[x] = v /\ \A y \in DOMAIN f : f[y] = v => x <= y
 
-TraceWriteNew == /\ IsEvent("WriteNew") /\ pc = "writing" /\ Count(new, "none") > 0
-                 /\ new' = [new EXCEPT ![FirstWith(new, "none")] = "init"]
-                 /\ UNCHANGED <<old, tail, clog, pc>>
-TraceLogCreate == /\ IsEvent("LogCreate") /\ pc = "writing" /\ Count(new, "none") = 0
-                  /\ clog' = "dirty" /\ pc' = "logging" /\ UNCHANGED <<old, new, tail>>
-TraceLogWrite == /\ IsEvent("LogWrite") /\ pc = "logging" /\ clog' = "written" /\ UNCHANGED <<old, new, tail, pc>>
+F == Trace[l].f
+
+\* the compaction / down-sample itself: temporary files created, written, synced
+TraceCreateNew == /\ IsEvent("CreateNew") /\ pc = "writing" /\ F \notin DOMAIN new
+                  /\ new' = new @@ (F :> "partial")
+                  /\ UNCHANGED <<old, tail, clog, pc, proto>>
+TraceWriteData == /\ IsEvent("WriteData") /\ pc = "writing" /\ F \in DOMAIN new /\ new[F] = "partial"
+                  /\ UNCHANGED <<old, new, tail, clog, pc, proto>>
+TraceSyncNew   == /\ IsEvent("SyncNew") /\ pc = "writing" /\ F \in DOMAIN new /\ new[F] = "partial"
+                  /\ new' = [new EXCEPT ![F] = "init"]
+                  /\ UNCHANGED <<old, tail, clog, pc, proto>>
+\* the intent log is written only when every new file is complete
+TraceLogCreate == /\ IsEvent("LogCreate") /\ pc = "writing" /\ DOMAIN new # {} /\ Count(new, "partial") = 0
+                  /\ clog' = "dirty" /\ pc' = "logging" /\ UNCHANGED <<old, new, tail, proto>>
+TraceLogWrite == /\ IsEvent("LogWrite") /\ pc = "logging" /\ clog' = "written" /\ UNCHANGED <<old, new, tail, pc, proto>>
 TraceLogSync  == /\ IsEvent("LogSync") /\ pc = "logging" /\ clog = "written"
-                 /\ clog' = "ok" /\ pc' = "renaming" /\ UNCHANGED <<old, new, tail>>
-TraceRenameNew == /\ IsEvent("RenameNew") /\ pc = "renaming" /\ clog = "ok" /\ Count(new, "init") > 0
-                  /\ new' = [new EXCEPT ![FirstWith(new, "init")] = "final"]
-                  /\ UNCHANGED <<old, tail, clog, pc>>
+                 /\ clog' = "ok" /\ pc' = "renaming" /\ UNCHANGED <<old, new, tail, proto>>
+TraceRenameNew == /\ IsEvent("RenameNew") /\ pc = "renaming" /\ clog = "ok" /\ F \in DOMAIN new /\ new[F] = "init"
+                  /\ new' = [new EXCEPT ![F] = "final"]
+                  /\ UNCHANGED <<old, tail, clog, pc, proto>>
 AllRenamed == Count(new, "final") = Cardinality(DOMAIN new)
 TraceDeleteOld == /\ IsEvent("DeleteOld") /\ pc = "renaming" /\ AllRenamed /\ clog = "ok" /\ Count(old, "final") > 0
                   /\ old' = [old EXCEPT ![FirstWith(old, "final")] = "gone"]
-                  /\ UNCHANGED <<new, tail, clog, pc>>
-TraceLogRemove == /\ IsEvent("LogRemove") /\ pc = "renaming" /\ AllRenamed /\ Count(old, "final") = 0
-                  /\ clog' = "none" /\ pc' = "tail" /\ UNCHANGED <<old, new, tail>>
+                  /\ UNCHANGED <<new, tail, clog, pc, proto>>
+\* down-sample only: the level is reported to ts-meta after the last delete and before the log goes
+TraceMetaUpdate == /\ IsEvent("MetaUpdate") /\ proto = "ds" /\ pc = "renaming" /\ AllRenamed /\ Count(old, "final") = 0
+                   /\ clog = "ok" /\ pc' = "meta" /\ UNCHANGED <<old, new, tail, clog, proto>>
+TraceLogRemove == /\ IsEvent("LogRemove") /\ AllRenamed /\ Count(old, "final") = 0
+                  /\ IF proto = "ds" THEN pc = "meta" ELSE pc = "renaming"
+                  /\ clog' = "none" /\ pc' = "tail" /\ UNCHANGED <<old, new, tail, proto>>
 TraceDeleteTail == /\ IsEvent("DeleteOld") /\ pc = "tail" /\ Count(tail, "final") > 0
                    /\ tail' = [tail EXCEPT ![FirstWith(tail, "final")] = "gone"]
-                   /\ UNCHANGED <<old, new, clog, pc>>
+                   /\ UNCHANGED <<old, new, clog, pc, proto>>
 
-TraceNext == TraceReset \/ TraceWriteNew \/ TraceLogCreate \/ TraceLogWrite \/ TraceLogSync
-             \/ TraceRenameNew \/ TraceDeleteOld \/ TraceLogRemove \/ TraceDeleteTail
+TraceNext == TraceReset \/ TraceCreateNew \/ TraceWriteData \/ TraceSyncNew
+             \/ TraceLogCreate \/ TraceLogWrite \/ TraceLogSync
+             \/ TraceRenameNew \/ TraceDeleteOld \/ TraceMetaUpdate \/ TraceLogRemove \/ TraceDeleteTail
 
-TraceInit == /\ old = <<>> /\ new = <<>> /\ tail = <<>> /\ clog = "none" /\ pc = "idle" /\ l = 1 /\ TLCSet(1, 1)
+TraceInit == /\ old = <<>> /\ new = <<>> /\ tail = <<>> /\ clog = "none" /\ pc = "idle" /\ proto = "compact"
+             /\ l = 1 /\ TLCSet(1, 1)
 TraceSpec == TraceInit /\ [][TraceNext]_vars
 
 HighWater == IF l > TLCGet(1) THEN TLCSet(1, l) ELSE TRUE
